@@ -30,7 +30,7 @@ FreeMeta(S) == {x \in S : x[1] \notin SettingNames}
 InstEq(o, e) ==
   /\ o.rest = e.rest
   /\ (~e.rest => /\ SameIvC(o.deg, e.deg) /\ o.name = e.sym
-                 /\ (e.hasBase => (o.hasBase /\ SameIvC(o.base, e.base)) \/ (~o.hasBase /\ SameIvC(e.base, P1)))   \* (a bass on the root itself may be left out)
+                 /\ (e.hasBase => (o.hasBase /\ SameIvC(o.base, e.base)) \/ (~o.hasBase /\ e.base.n = 1 /\ Size(e.base) = 0))   \* (a bass on the root itself may be left out)
                  /\ (o.hasBase /\ ~e.hasBase => SameIvC(o.base, P1)))          \* (no bass = the root itself)
   /\ Len(o.vals) = Len(e.vals) /\ \A i \in 1..Len(e.vals) : SameRat(o.vals[i], e.vals[i])
   /\ o.bpm = e.bpm
